@@ -20,6 +20,7 @@ CONSTANTS ND,          \* number of destinations
           MaxRetries,  \* DYNAMIC_ROUTER_MAX_RETRIES
           RF,          \* replication factor of the (abstract) router
           Ratio,       \* USE_RATIO_RESET (connections of destinations that fall behind are reset)
+          RemovalReleases, \* TRUE: a full queue emptied by the dynamic router's removal reports space (repaired code, F18)
           PostTake,    \* TRUE: the low-watermark test uses the queue length after the take (repaired code)
           MaxItems, MaxConnEvents
 
@@ -137,7 +138,12 @@ DestDown(st, d, k, ov) ==
            s2 == IF HasSet(s1) = {} THEN PauseRecv(s1) ELSE s1
            items == s2.q[d]
            nsent == Max0(Len(s2.aout[d]) - Len(items))
-           r == Reinject(s2, items, k, ov)
+           \* the removed destination's queue is being emptied and nothing will ever drain it: if it had reported itself
+           \* full, it reports space now (while another destination is left to route to) - otherwise the receivers would
+           \* stay paused for as long as the destination is away (defect F18, repaired)
+           r0 == IF RemovalReleases /\ s2.fullCalled[d] /\ HasSet(s2) # {}
+                   THEN SpaceAvailEv([s2 EXCEPT !.fullCalled[d] = FALSE], k, ov) ELSE <<s2, k>>
+           r == Reinject(r0[1], items, r0[2], ov)
        IN <<[r[1] EXCEPT !.q[d] = <<>>, !.aout[d] = SubSeq(@, 1, nsent)], r[2]>>
 
 Retry(st, d) == IF st.trying[d] THEN [st EXCEPT !.retries[d] = @ + 1, !.rt[d] = TRUE, !.cs[d] = "waiting"]
@@ -277,9 +283,11 @@ SendScheduledS(st) == \A d \in Dest :
 SendScheduled == SendScheduledS(s)
 
 (* C09, relay side *)
-Quiescent == /\ \A d \in Dest : ~s.st[d] /\ ~s.rt[d]
+\* (a destination the dynamic router has removed - or not yet admitted - keeps retrying in the background for as long as
+\* it is unreachable: its retry timer and connection attempts are not something the daemon is waiting for)
+Quiescent == /\ \A d \in Dest : ~s.st[d] /\ (s.has[d] => ~s.rt[d])
              /\ \A d \in Dest : s.cs[d] = "connected" => (s.pconn[d] /\ ~s.tp[d])
-             /\ \A d \in Dest : s.cs[d] # "connecting"
+             /\ \A d \in Dest : s.has[d] => s.cs[d] # "connecting"
 BelowWater == \A d \in Dest : Len(s.q[d]) < LowC
 SomeoneUp == \E d \in Dest : s.cs[d] = "connected" /\ s.has[d]
 Stuck == (s.rpaused \/ \E c \in Recv : s.rconn[c] /\ ~s.prod[c]) /\ BelowWater
